@@ -12,6 +12,7 @@ structure CTState where
   flatPanicked : Bool := false
   parity : Bool := false        -- convertParityErrors
   precompiles : Option (List Nat) := none   -- `t.activePrecompiles` as the tracer computed it at CaptureStart (none: Istanbul+ set)
+  started : Bool := false                   -- `CaptureStart` seen: before it the flat tracer's precompile list is empty
 
 def perr (s : String) : Option String := if s = "-" then none else some (s.replace "_" " ")
 
@@ -31,7 +32,8 @@ def parseTEvent (toks : List String) : Option TEvent :=
 /-- `flatCallTracer.CaptureExit` after the inner tracer's (model: `flatAfterInnerExit`) -/
 def flatAfterExit (c : CTState) (before : TState) : CTState :=
   if c.includePrecompiles then c else
-  match flatAfterInnerExit before c.st (match c.precompiles with | none => isPrecompileAddr | some l => fun a => l.contains a) with
+  match flatAfterInnerExit before c.st
+      (if !c.started then fun _ => false else match c.precompiles with | none => isPrecompileAddr | some l => fun a => l.contains a) with
   | .ok st' => { c with st := st' }
   | _ => { c with flatPanicked := true }
 
@@ -46,7 +48,7 @@ def ctEvent (c : CTState) (flat : Bool) (toks : List String) : CTState × String
     if c.panicked then (c, "ok") else
     match CallTracer.step c.st ev with
     | .ok st' =>
-      let c' := { c with st := st' }
+      let c' := { c with st := st', started := c.started || (match ev with | .start .. => true | _ => false) }
       let c' := match ev with
         | .exit _ _ _ => if flat then flatAfterExit c' c.st else c'
         | _ => c'
@@ -57,7 +59,7 @@ def errOrDash (s : String) : String := if s = "" then "-" else s.replace " " "_"
 
 def jpName (n : Nat) : String :=
   if n = 1 then "verifyTx" else if n = 2 then "preTxExecute" else if n = 4 then "preContractCall"
-  else if n = 8 then "postContractCall" else if n = 16 then "postTxExecute" else "unknown"
+  else if n = 8 then "postContractCall" else if n = 16 then "postTxExecute" else if n = 0 then "unknown" else ""
 
 partial def showFrame (st : TState) (id : Nat) : String :=
   match st.frames[id]? with
@@ -94,6 +96,10 @@ def renderEntry (par : Bool) (st : TState) (e : FlatEntry FLabel) : String :=
     | some f =>
       let isCreate := f.typ == "CREATE" || f.typ == "CREATE2"
       let dropResult := f.error != "" && f.error != "execution reverted"
+      -- `newFlatSuicide`: the self-destructed account, the beneficiary and the balance; never a result
+      if f.typ == "SELFDESTRUCT" then
+        s!"suicide:{hexNat f.frm}:{optNat f.to}:{optNat f.value}:{shownErr par f.error}:sub={e.sub}:at={showAddr e.addr}"
+      else
       s!"{if isCreate then "create" else "call"}:{if isCreate then "create" else f.typ.toLower}:{hexNat f.frm}:{optNat f.to}:{hexNat f.gas}:{hexBytes f.input}:{optNat f.value}:{if dropResult then "noresult" else hexNat f.gasUsed ++ "/" ++ hexBytes f.output}:{shownErr par f.error}:sub={e.sub}:at={showAddr e.addr}"
   | .aspect a =>
     match st.aspects[a]? with
